@@ -120,7 +120,7 @@ def sub_constructors_long(ctx, shard, n):
                      st.text(alphabet="#b", min_size=6, max_size=40)
                      | st.builds(lambda s, k: s * k, st.sampled_from("#b"), st.integers(6, 40)))
     strat = st.tuples(st.sampled_from(CONSTRUCTOR_NAMES), name).map(list)
-    ctx.given("constructor", check_constructor, strat, 1500 if ctx.quick else 15000)
+    ctx.given("constructor", check_constructor, strat, 1500 if ctx.quick else 40000)
 
 
 def sub_pairs(ctx, shard, n):
